@@ -18,9 +18,9 @@ P = {
     "C02": (True, EX, "4/C02", "exhaustive grid compared byte-for-byte with an independent executable specification (libcrypto)",
             "Same grid as C01; the produced file must equal the reference implementation of the documented format (EVP AES modes, SHA-1 IV chain, PKCS#7, round-robin striping, RFC 2104 tag), be deterministic, contain no plaintext block and leave the input intact.",
             "trusts OpenSSL libcrypto as reference (self-tested against FIPS/NIST/RFC vectors in every run)"),
-    "C03": (True, MC, "4/C03", "stateless model checking of the implementation: preemption-bounded / delay-bounded DFS and sleep-set search over all interleavings under a controlled scheduler",
+    "C03": (True, MC, "4/C03", "model checking of the implementation under a controlled scheduler: stateless preemption-/delay-bounded DFS, sleep-set search, and explicit-state search with state matching (no bound) whose abstraction is validated by a successor-determinism check",
             "All interleavings of the real pipeline code (worker threads + I/O thread) up to the stated preemption bound, for T=1..4 and every chunk-count class, are executed; on each the output must equal the sequential reference and every stream must have processed exactly its own blocks once, in order.",
-            "bounded: T<=4, <=5 chunks, chunk 1-3 blocks, preemption bound 2-3 (T<=2), delay bound 2 (T>=3), unbounded for the smallest configurations; sequential consistency between scheduling points"),
+            "bounded searches: T<=4, <=5 chunks, chunk 1-3 blocks, preemption bound 2-3 (T<=2), delay bound 2 (T>=3), sleep sets unbounded for T=1; state-matching searches (no bound) assume the hashed canonical state determines the future - validated per run, bounded searches do not depend on it; sequential consistency between scheduling points"),
     "C04": (True, MC, "4/C04", "stateless model checking of the implementation (same explorer): deadlock = no enabled thread, livelock = step horizon, hang = alarm confirmed by isolated re-run",
             "On every explored interleaving run_multicry must return with all threads joined; a state with no enabled thread is reported as deadlock/lost wake-up with the blocked operations.",
             "as C03; condition-variable time-outs are not modelled; spurious wake-ups are injected in the thorough tier"),
